@@ -36,6 +36,10 @@ claim("C11", "static analysis: dominance and cycle analysis on the pruned SSA CF
       "Decides that no instruction is dispatched without a context poll on the loop SetContext installs, that byte-code is entered only through the per-state loop selection, that coroutines inherit a child context, and that every blocking channel operation watches ctx.Done() whenever a context is attached. It does not decide promptness inside long-running host functions.",
       BASE + "context.Context.Done() is closed when the context is done.", "DESIGN.md §3 C11")
 
+claim("C09", "static analysis: per-exit routing analysis of the four keyed accessors on the pruned SSA CFG (array predicate established by path conditions, or a dominating hash-part access; boundary-operator agreement), who-may-write ownership of dict/strdict/keys/k2i with shape rules (keys only grows by append, nothing deletes from k2i), key-validation who-may-call rule for raw stores",
+      "Decides that a key is routed to the same part by every keyed accessor, that only the two owning setters touch the hash structures and record every new key's position exactly once, and that arbitrary Lua keys reach the raw store only through the nil/NaN-rejecting RawSet. It does not decide the map/border/traversal behaviour under histories.",
+      BASE + "Go map semantics for dict/strdict.", "DESIGN.md §3 C09")
+
 for pid in ["C%02d" % i for i in range(2, 21)]:
     if pid not in P:
         na(pid, "check not built yet in this session (planned rules: DESIGN.md §3 %s); not claimed until its rules run clean" % pid)
